@@ -379,19 +379,19 @@ Proof.
       [apply repeat_length|apply reduced_length|].
     exists y. fold len in E. rewrite Ey in E. split; [exact E|]. split; [exact Hc'|]. split; [exact S|]. split; [exact Ly|].
     intros j Hj. rewrite Hy by exact Hj. rewrite nth_repeat0, nth_reduced by exact Hj.
-    unfold delta_fn, rcol. rewrite bind_upper_zero. ring.
+    unfold delta_fn, rcol. rewrite bind_upper_zero. lra.
   - rewrite bind_apply_pos_only in E by (auto; apply reduced_length).
     destruct (Hfin (reduced (ared RN a) (p0 :: tp) len) (repeat 0 len)) as (y & Ey & Ly & Hy);
       [apply reduced_length|apply repeat_length|].
     exists y. fold len in E. rewrite Ey in E. split; [exact E|]. split; [exact Hc'|]. split; [exact S|]. split; [exact Ly|].
     intros j Hj. rewrite Hy by exact Hj. rewrite nth_repeat0, nth_reduced by exact Hj.
-    unfold delta_fn, rcol. rewrite bind_lower_zero. ring.
+    unfold delta_fn, rcol. rewrite bind_lower_zero. lra.
   - rewrite bind_apply_both in E by (auto; apply reduced_length).
     destruct (Hfin (reduced (ared RN a) (p0 :: tp) len) (reduced (ared RN a) (n0 :: tn) len)) as (y & Ey & Ly & Hy);
       [apply reduced_length|apply reduced_length|].
     exists y. rewrite Ey in E. split; [exact E|]. split; [exact Hc'|]. split; [exact S|]. split; [exact Ly|].
     intros j Hj. rewrite Hy by exact Hj. rewrite !nth_reduced by exact Hj.
-    unfold delta_fn, rcol. ring.
+    unfold delta_fn, rcol. lra.
 Qed.
 
 (* nothing accumulated: the parameter is returned untouched (whatever bounding is configured) *)
